@@ -122,5 +122,5 @@ class PlayerDie(JMCFunction):
 )
 class JMCPackMeta(JMCFunction):
     def call(self) -> str:
-        self.datapack.custom_pack_meta = json.loads(self.args["packMeta"])
+        self.datapack.custom_pack_meta = self.load_arg_json("packMeta")
         return ""
